@@ -19,7 +19,7 @@ the URL templates `normalize_youtube_url` fills in.
   (`Model/HostnameTrieSet.lean`, property C09).  The trie `t` and the `idna` codec `puny` are
   parameters; `youtubeTrie puny` is the trie the module builds from the regenerated domain
   list `Gen.youtubeDomains`.
-* the seven regexes are hand-written matchers (leftmost match, greedy value group — none of
+* the regexes are hand-written matchers (leftmost match, greedy value group — none of
   them needs backtracking, see each doc-comment); the pattern strings and flags they were
   written for are the `…Pattern` constants below, compared with the regenerated ones by the
   table obligations of `Props/C19/Youtube.lean`, and each matcher is compared with the real
@@ -48,7 +48,8 @@ inductive Record where
 def videoIdPattern : String := "^[a-zA-Z0-9_-]{11}$"
 def channelIdPattern : String := "^UC[a-zA-Z0-9_-]{22}$"
 def queryVPattern : String := "v=([^&#]+)"
-def queryListPattern : String := "list=([^&#?]+)"
+def queryListPattern : String := "list=([^&#?/%]+)"
+def unsafeUrlCharsPattern : String := "[\\t\\r\\n]"
 def nextVPattern : String := "next=%2Fwatch%3Fv%3D([^%&#]+)"
 def nestedNextVPattern : String := "next%3D%252Fwatch%253Fv%253D([^%&#]+)"
 def fragmentVPattern : String := "^(?:%2F|/)watch(?:%3F|\\?)v(?:%3D|=)([a-zA-Z0-9_-]{11})"
@@ -112,14 +113,15 @@ def litValueSearch (lit stops : List Char) : Str → Option Str
     | none => litValueSearch lit stops cs
 
 def stopsAmpHash : List Char := ['&', '#']
-def stopsAmpHashQm : List Char := ['&', '#', '?']
+def stopsList : List Char := ['&', '#', '?', '/', '%']
 def stopsPctAmpHash : List Char := ['%', '&', '#']
 
 /-- `QUERY_V_RE.search(s)` group 1 — `v=([^&#]+)`, `re.I` -/
 def queryV (s : Str) : Option Str := litValueSearch "v=".toList stopsAmpHash s
-/-- `QUERY_LIST_RE.search(s)` group 1 — `list=([^&#?]+)`, `re.I` (as repaired by 569f4b6: a
-playlist id stops at a `?` too) -/
-def queryList (s : Str) : Option Str := litValueSearch "list=".toList stopsAmpHashQm s
+/-- `QUERY_LIST_RE.search(s)` group 1 — `list=([^&#?/%]+)`, `re.I` (a playlist id stops at a `?`
+and at a `/`: what follows could be taken for a redirection hint once the id sits in the
+canonical url; and at a `%`: it could be taken for a continuation url) -/
+def queryList (s : Str) : Option Str := litValueSearch "list=".toList stopsList s
 /-- `NEXT_V_RE.search(s)` group 1 — `next=%2Fwatch%3Fv%3D([^%&#]+)`, `re.I` -/
 def nextV (s : Str) : Option Str := litValueSearch "next=%2fwatch%3fv%3d".toList stopsPctAmpHash s
 /-- `NESTED_NEXT_V_RE.search(s)` group 1 — `next%3D%252Fwatch%253Fv%253D([^%&#]+)`, `re.I` -/
@@ -161,6 +163,10 @@ def is_youtube_url (puny : Str → Str) (t : T) (url : Str) : Bool :=
   | some r => isYoutubeParsed puny t r
 
 /-! ## `parse_youtube_url` -/
+
+/-- `UNSAFE_URL_CHARS_RE.sub("", url)` — `[\t\r\n]`: the characters `urlsplit` removes wherever
+they are; the continuation / playlist patterns read the url `urlsplit` will split -/
+def stripUnsafe (url : Str) : Str := url.filter (fun c => !isUnsafeUrlChar c)
 
 /-- `v = v[:11]` when `fix_common_mistakes` -/
 def truncate (fix : Bool) (v : Str) : Str := if fix then v.take 11 else v
@@ -269,7 +275,7 @@ def parseSplit (fix : Bool) (parsed : SplitResult) (playlist : Option Str) :
 /-- `parse_youtube_url(url, fix_common_mistakes)` — youtube.py:250-432 -/
 def parse_youtube_url (puny : Str → Str) (t : T) (url : Str) (fix : Bool := true) :
     Except Err (Option Record) :=
-  let url := infer url
+  let url := stripUnsafe (infer url)
   let playlist := queryList url
   match (nextV url).or (nestedNextV url) with
   | some v => .ok (videoOf fix v playlist)
